@@ -223,6 +223,23 @@ CLAIMED = {
             '5/C08, section 7'),
 }
 
+# units added after the second and third round of seeded changes (details: ASBUILT.md)
+ADDENDA = {
+    'C03': ' The constructor allocates its tables per instance (two parsers share nothing).',
+    'C05': ' Bounded: get_contigs_with_reads lists a contig iff the index statistics show mapped or placed-unmapped records.',
+    'C06': ' Every pass of MoleculeIterator.__iter__ starts with empty buffers and reset counters.',
+    'C09': ' The homopolymer rejection of Fragment.__init__ treats a run of a base and of its complement alike (block contract).',
+    'C10': ' Bounded: create_count_table judges "inside the contig" with the contig lengths of the BAM file the read comes from (two files).',
+    'C11': ' Bounded: the blacklist dictionary built by create_count_table holds every interval of the BED file (3 rows), and the contig lengths are those of the file being read.',
+    'C13': ' Bounded: read_to_consensus_dict reports every aligned base of the window with its quality, N included; get_consensus also with four fragments (plurality without absolute majority) and in the with_probs_and_obs variant.',
+    'C14': ' The consensus variant TAPS reads (with_probs_and_obs) and read_to_consensus_dict are re-verified here (bounded units of C13).',
+    'C15': ' Bounded: every aligned base is one observation with confidence 1 - 10^(-Q/10) (10^x uninterpreted).',
+    'C16': ' Bounded: FeatureAnnotatedMolecule.annotate queries the strand the stranded flag prescribes and reports exactly the features the container returned.',
+    'C17': ' blacklisted_binning_contigs tiles every contig once, over its whole length, against the blacklist intervals of that contig (loop contract over any number of contigs).',
+    'C19': ' The constructor creates per-instance state (no shared seen-set / handle table).',
+    'C20': ' run_multiome_tagging overwrites a stale success marker before the old output or its index is removed (typestate monitor with failing steps); run_tagging_tasks accumulates every task (shared with C05).',
+}
+
 NOT_YET = 'check not built yet (framework under construction; see DESIGN.md section 5)'
 
 
@@ -236,6 +253,7 @@ def main():
         if pid not in CLAIMED:
             continue
         text, note, ref = CLAIMED[pid]
+        text += ADDENDA.get(pid, '')
         checks.append({
             'property_id': pid, 'quick_cmd': './check %s quick' % pid, 'thorough_cmd': './check %s thorough' % pid,
             'evidence_file': 'evidence/%s.json' % pid, 'replay_cmd_template': './check --replay {path}',
